@@ -947,3 +947,17 @@ func (e *Exec) BytesByArg(st *State, prefix string, arg Val) Val {
 	b := e.Input(prefix+"_"+name, "byte", types.Typ[types.Uint8])
 	return TupleV{e.mkSlice(st, types.Typ[types.Uint8], []Val{b}), &IfaceV{}}
 }
+
+// FreshFloatResults: all (float) results are symbolic inputs <prefix>_<call>_<k>.
+func (e *Exec) FreshFloatResults(prefix string, fn *ssa.Function) Val {
+	e.stubCalls[prefix]++
+	res := fn.Signature.Results()
+	tv := make(TupleV, res.Len())
+	for i := range tv {
+		tv[i] = e.Input(fmt.Sprintf("%s_%d_%d", prefix, e.stubCalls[prefix], i), "float", types.Typ[types.Float64])
+	}
+	if len(tv) == 1 {
+		return tv[0]
+	}
+	return tv
+}
